@@ -62,16 +62,19 @@ class LeastSquaresScipyStrategy(HoloPyObject):
             raise MissingParameter('at least one parameter to fit')
 
         if self.npixels is None:
-            data = flat(data)
+            # fit on the flattened image, but keep the image itself for the
+            # result (a bare flattened copy cannot be saved and reloaded)
+            fit_data = flat(data)
         else:
             data = make_subset_data(data, pixels=self.npixels)
+            fit_data = data
         guess_lnprior = model.lnprior(model.initial_guess)
 
         def residual(rescaled_values):
             unscaled_values = self.unscale_pars_from_minimizer(
                 parameters, rescaled_values)
-            noise = model._find_noise(unscaled_values, data)
-            residuals = model._residuals(unscaled_values, data, noise)
+            noise = model._find_noise(unscaled_values, fit_data)
+            residuals = model._residuals(unscaled_values, fit_data, noise)
             ln_prior = model._lnprior(unscaled_values) - guess_lnprior
             zscore_prior = np.sqrt(2 * -ln_prior)
             np.append(residuals, zscore_prior)
